@@ -807,9 +807,12 @@ func scenarioC13(c *RunCtx) {
 	c.Sample = w.Describe()
 	c.Op("world: %s", w.Describe())
 	genomes = append(genomes, BuildGenome(t, GenomeSpec{AllowDisabled: true, MaxHidden: 3, ActSwarm: true, FeedForwardOnly: !recurrent}))
-	if t.Chance("modularNet", 1, 4) {
+	if t.Chance("modularNet", 1, 2) {
 		genomes = append(genomes, BuildModularGenome(t))
 		c.Count("probe.modular_network")
+		if t.Chance("modularNet.second", 1, 2) {
+			genomes = append(genomes, BuildModularGenome(t))
+		}
 	}
 	for gi, g := range genomes {
 		rec := Canon(g)
